@@ -103,11 +103,12 @@ void ABTI_ythread_callback_resume_yield_to(void *arg)
 void ABTI_ythread_callback_suspend(void *arg)
 {
     ABTI_ythread *p_prev = (ABTI_ythread *)arg;
-    /* Increase the number of blocked threads of the original pool (i.e., before
-     * migration) */
-    ABTI_pool_inc_num_blocked(p_prev->thread.p_pool);
     /* Request handling.  p_prev->thread.p_pool might be changed. */
     ABTI_thread_handle_request(&p_prev->thread, ABT_FALSE);
+    /* Increase the number of blocked threads of the pool this thread is
+     * associated with now (i.e., after migration): this is the pool it will be
+     * pushed to, and whose counter will be decreased, when it is resumed. */
+    ABTI_pool_inc_num_blocked(p_prev->thread.p_pool);
     /* Set this thread's state to BLOCKED. */
     ABTD_atomic_release_store_int(&p_prev->thread.state,
                                   ABT_THREAD_STATE_BLOCKED);
@@ -121,6 +122,8 @@ void ABTI_ythread_callback_resume_suspend_to(void *arg)
      * access it after that ULT becomes resumable. */
     ABTI_ythread *p_prev = p_arg->p_prev;
     ABTI_ythread *p_next = p_arg->p_next;
+    /* Request handling.  p_prev->thread.p_pool might be changed. */
+    ABTI_thread_handle_request(&p_prev->thread, ABT_FALSE);
     ABTI_pool *p_prev_pool = p_prev->thread.p_pool;
     ABTI_pool *p_next_pool = p_next->thread.p_pool;
     if (p_prev_pool != p_next_pool) {
@@ -129,8 +132,6 @@ void ABTI_ythread_callback_resume_suspend_to(void *arg)
         /* Decrease the number of blocked threads of p_next's pool */
         ABTI_pool_dec_num_blocked(p_next_pool);
     }
-    /* Request handling.  p_prev->thread.p_pool might be changed. */
-    ABTI_thread_handle_request(&p_prev->thread, ABT_FALSE);
     /* Set this thread's state to BLOCKED. */
     ABTD_atomic_release_store_int(&p_prev->thread.state,
                                   ABT_THREAD_STATE_BLOCKED);
@@ -167,10 +168,11 @@ void ABTI_ythread_callback_suspend_unlock(void *arg)
      * access it after that ULT becomes resumable. */
     ABTI_ythread *p_prev = p_arg->p_prev;
     ABTD_spinlock *p_lock = p_arg->p_lock;
-    /* Increase the number of blocked threads */
-    ABTI_pool_inc_num_blocked(p_prev->thread.p_pool);
     /* Request handling.  p_prev->thread.p_pool might be changed. */
     ABTI_thread_handle_request(&p_prev->thread, ABT_FALSE);
+    /* Increase the number of blocked threads (of the pool after migration; see
+     * ABTI_ythread_callback_suspend()) */
+    ABTI_pool_inc_num_blocked(p_prev->thread.p_pool);
     /* Set this thread's state to BLOCKED. */
     ABTD_atomic_release_store_int(&p_prev->thread.state,
                                   ABT_THREAD_STATE_BLOCKED);
@@ -186,10 +188,11 @@ void ABTI_ythread_callback_suspend_join(void *arg)
      * access it after that ULT becomes resumable. */
     ABTI_ythread *p_prev = p_arg->p_prev;
     ABTI_ythread *p_target = p_arg->p_target;
-    /* Increase the number of blocked threads */
-    ABTI_pool_inc_num_blocked(p_prev->thread.p_pool);
     /* Request handling.  p_prev->thread.p_pool might be changed. */
     ABTI_thread_handle_request(&p_prev->thread, ABT_FALSE);
+    /* Increase the number of blocked threads (of the pool after migration; see
+     * ABTI_ythread_callback_suspend()) */
+    ABTI_pool_inc_num_blocked(p_prev->thread.p_pool);
     /* Set this thread's state to BLOCKED. */
     ABTD_atomic_release_store_int(&p_prev->thread.state,
                                   ABT_THREAD_STATE_BLOCKED);
@@ -208,10 +211,11 @@ void ABTI_ythread_callback_suspend_replace_sched(void *arg)
      * access it after that ULT becomes resumable. */
     ABTI_ythread *p_prev = p_arg->p_prev;
     ABTI_sched *p_main_sched = p_arg->p_main_sched;
-    /* Increase the number of blocked threads */
-    ABTI_pool_inc_num_blocked(p_prev->thread.p_pool);
     /* Request handling.  p_prev->thread.p_pool might be changed. */
     ABTI_thread_handle_request(&p_prev->thread, ABT_FALSE);
+    /* Increase the number of blocked threads (of the pool after migration; see
+     * ABTI_ythread_callback_suspend()) */
+    ABTI_pool_inc_num_blocked(p_prev->thread.p_pool);
     /* Set this thread's state to BLOCKED. */
     ABTD_atomic_release_store_int(&p_prev->thread.state,
                                   ABT_THREAD_STATE_BLOCKED);
